@@ -215,7 +215,8 @@ class Layout:
                     cc = rng.choice(contchars) if not self.plain else "&"
                     lines.append("     " + cc + pc)
                     self.features.add("fixed_cont")
-                if j < len(pieces) - 1 and not self.plain and rng.random() < 0.15 and (len(lines[-1]) < 50 or not length_limit):
+                mixq = "'" in pc and '"' in pc  # a literal holding the other quote character: comment detection must track which quote is open
+                if j < len(pieces) - 1 and not self.plain and rng.random() < (0.6 if mixq else 0.15) and (len(lines[-1]) < 50 or not length_limit):
                     lines[-1] += rng.choice(["  ! zn3 trailing", " ! zn3 it's trailing", "   !zn3"])  # a comment after a line that is continued
                     self.features.add("fixed_trailing_comment_on_continued_line")
                 if j < len(pieces) - 1 and not self.plain and rng.random() < 0.2:
@@ -232,7 +233,7 @@ class Layout:
                     if l and l[0] not in "Cc*!" and len(l) <= 72 and rng.random() < 0.4 and "!" not in l:
                         lines[k] = l.ljust(72) + rng.choice(["SEQ00010", "zz = 'x", "! x", "12345678"])
                         self.features.add("sequence_field")
-                    elif l and l[0] not in "Cc*!" and len(l) <= 72 and "!" in l and rng.random() < 0.3:
+                    elif l and l[0] not in "Cc*!" and len(l) <= 72 and "!" in l and rng.random() < (0.8 if ("'" in l and '"' in l) else 0.3):
                         lines[k] = l.ljust(72) + rng.choice(["SEQ00020", "87654321"])  # ignored columns after a trailing comment / inline doc
                         self.features.add("sequence_field_after_comment")
             out += lines
